@@ -35,7 +35,7 @@ def exact_family(chk, rng, n_cases, found):
     for i in range(n_cases):
         name = EXACT[i % len(EXACT)]
         cat = rng.choice(["generic", "conflict", "conflict", "antiparallel", "dup_rows", "rank_def", "one_row"])
-        J, cat = A.gen_matrix(rng, cat=cat, mmax=4, nmax=5, scale_exp=rng.choice([0, 0, -4, 3]))
+        J, cat = A.gen_matrix(rng, cat=cat, mmax=4, nmax=5, scale_exp=[-46, 0, 40, -4, 0, 3][(i // len(EXACT)) % 6])   # every aggregator at every scale
         if name in ("ConFIG", "PCGrad") and any(all(x == 0 for x in r) for r in J):
             continue
         m = len(J)
@@ -159,11 +159,13 @@ def run(chk):
     R.report_corr(chk, dis, found)
     chk.cov["rule"] = ("Mean, Sum, Constant, ConFIG, PCGrad and Random (fixed seed): three related "
                        "positive scalings c1, c2, a c1 + b c2 with entries 2^-10..2^10 on conflicting / "
-                       "generic / rank-deficient matrices, f32 and f64; UPGrad: full-row-rank conflicting "
+                       "generic / rank-deficient matrices at global scales 2^-46..2^40 (row norms from "
+                       "1e-17 to 1e16), f32 and f64; UPGrad: full-row-rank conflicting "
                        "matrices on the reg_eps ladder 1e-2..1e-12 and 1e-16; non-trivial = more than "
                        "one row")
     chk.assumptions += ["UPGrad's constant K = 740 is 10x the maximum measured on the unchanged tree; "
-                        "its sqrt(reg_eps) bound is not proved (oracle only)"]
+                        "the proved bound (C09_upgrad_defect_bound) has the constant 1/2 but is stated with the "
+                        "unregularised minimisers, which the implementation never computes"]
 
 
 def replay(chk, obj):
